@@ -45,7 +45,7 @@ func vfcrigGenSet(rng *rand.Rand, idx int) vfcrigSet {
 		k = 5
 	}
 	// variant is chosen round-robin so that every kind of pending work occurs in every run
-	variants := []string{"aligned", "replicas", "vertical-shifted", "no-compact", "empty-block", "two-groups", "replicas-penalty"}
+	variants := []string{"aligned", "replicas", "vertical-shifted", "multi-result", "no-compact", "empty-block", "two-groups", "replicas-penalty", "tombstoned-block"}
 	v := variants[idx%len(variants)]
 	set.Name = fmt.Sprintf("%s/k=%d/start=%d/ranges=%v", v, k, start, set.Ranges)
 	emptyAt := -1
@@ -60,6 +60,24 @@ func vfcrigGenSet(rng *rand.Rand, idx int) vfcrigSet {
 		set.Specs = append(set.Specs, sp)
 	}
 	switch v {
+	case "multi-result":
+		// four blocks fill one 4000 window, the fifth is the newest; the compactor wrapper hands back two result blocks for the plan of four
+		set.MultiResult = true
+		set.Ranges = []int64{1000, 4000}
+		set.Specs = nil
+		for i := 0; i < 5; i++ {
+			set.Specs = append(set.Specs, vfcrigSpec{Min: int64(i) * 1000, Max: int64(i+1) * 1000, Series: pickSeries(), Samples: 2 + rng.Intn(3), Ext: ext})
+		}
+		set.Name = "multi-result/k=5/ranges=[1000 4000]"
+	case "tombstoned-block":
+		// an old block spanning a whole window that reports tombstones: the planner compacts it on its own (single-block plan)
+		set.Ranges = []int64{1000, 3000}
+		set.Specs = []vfcrigSpec{
+			{Min: 0, Max: 3000, Series: []int{1, 2}, Samples: 4, Ext: ext, Tombstones: 3},
+			{Min: 3000, Max: 6000, Series: pickSeries(), Samples: 3, Ext: ext},
+			{Min: 6000, Max: 9000, Series: pickSeries(), Samples: 3, Ext: ext},
+		}
+		set.Name = "tombstoned-block"
 	case "replicas", "replicas-penalty":
 		// two replica streams of the same data: identical blocks under r=a and r=b, deduplicated by vertical compaction
 		set.ReplicaLabels = []string{"r"}
